@@ -12,9 +12,11 @@ Property theorems only; helper lemmas live in `EAO/Lemmas/Slp.lean`.
                          per variable; variables WITHOUT mapping row are fine (they belong to the present).
 * `slp_structure`      — a point of `makeSlp P F cs` is `(x_present, x_future^0 … x_future^S)`: it satisfies
                          the rows/bounds iff every recombined point `z ∘ embed s` satisfies those of `P`; its
-                         value is `value_present + 1/(S+1) Σ_s value_future^s`.
-* `slp_value_mean`     — if the scenario cost vectors share the present part, the SLP value is the mean of
-                         the scenario values of the recombined points.
+                         value is `value_present,non-straddling + 1/(S+1) Σ_s (value_straddling^s + value_future^s)`.
+* `slp_value_mean`     — if the scenario cost vectors share the costs of the present variables that are NOT
+                         straddling (`SharePresentNS`; implied by `SharePresent`), the SLP value is the mean of
+                         the scenario values of the recombined points.  A straddling present variable (present,
+                         but with a mapping row at a future step) gets the mean of its scenario costs.
 * `slp_mapping_faithful` — the mapping of the SLP: original rows unchanged, the copy for sample `i` of a row of
                          future variable `j` points at `slpEmbed … (i+1) j`; every label `< n_slp`; `firstRows` and
                          `boolVars` are the original ones plus their copies.
@@ -126,12 +128,40 @@ theorem value_split (mask : List Bool) (c : List Rat) (h : c.length = mask.lengt
   unfold presentValue futureValue
   rw [costAt_split mask c h x]; ring
 
+/-- `- Σ_{j present, not straddling} c_j x_j` -/
+def nsValue (mask strad : List Bool) (c : List Rat) (x : Vec) : Rat := - selCost id (nsMask mask strad) c x
+/-- `- Σ_{j straddling} c_j x_j` (straddling: a present variable with some mapping row at a future step) -/
+def stradValue (strad : List Bool) (c : List Rat) (x : Vec) : Rat := - selCost id strad c x
+
+theorem slpStraddle_length (P : Problem) (F : List Nat) : (slpStraddle P F).length = P.n := by
+  simp [slpStraddle]
+
+/-- a straddling variable is a present variable -/
+theorem slpStraddle_disjoint (P : Problem) (F : List Nat) (j : Nat)
+    (h : (slpStraddle P F).getD j false = true) : (slpMask P F).getD j false = false := by
+  by_cases hj : j < P.n
+  · rw [slpMask_getD P F j hj]
+    have e : (slpStraddle P F).getD j false =
+        (!(slpFutVars P F).contains j && P.mapping.any fun m => m.var == j && F.contains m.step) := by
+      simp [slpStraddle, List.getD_eq_getElem?_getD, hj]
+    rw [e, Bool.and_eq_true] at h
+    simpa using h.1
+  · simp [slpStraddle, List.getD_eq_getElem?_getD, hj] at h
+
+/-- the present part of a value = its non-straddling part + its straddling part -/
+theorem presentValue_split (mask strad : List Bool) (c : List Rat) (hs : strad.length = mask.length)
+    (hc : c.length = mask.length) (hdis : ∀ j, strad.getD j false = true → mask.getD j false = false) (x : Vec) :
+    presentValue mask c x = nsValue mask strad c x + stradValue strad c x := by
+  unfold presentValue nsValue stradValue
+  rw [selCost_not_split mask strad c hs hc hdis x]; ring
+
 /-- what `makeSlp` returns, with the facts its checks establish -/
 theorem makeSlp_eq (P : Problem) (F : List Nat) (cs : List (List Rat)) (Q : Problem)
     (h : makeSlp P F cs = .ok Q) :
     let mask := slpMask P F
     (mask.length = P.n ∧ P.l.length = P.n ∧ P.u.length = P.n ∧ ∀ c ∈ cs, c.length = P.n) ∧
-    Q.c = scaleSel ((cs.length : Rat) + 1) mask P.c ++ sampleCosts ((cs.length : Rat) + 1) mask cs ∧
+    Q.c = scaleSel ((cs.length : Rat) + 1) mask (presentCosts ((cs.length : Rat) + 1) (slpStraddle P F) P.c cs) ++
+      sampleCosts ((cs.length : Rat) + 1) mask cs ∧
     Q.l = P.l ++ tile (maskSel mask P.l) cs.length ∧
     Q.u = P.u ++ tile (maskSel mask P.u) cs.length ∧
     Q.rows = P.rows ++ sampleRows mask P.n P.rows 0 cs.length ∧
@@ -164,16 +194,20 @@ theorem slp_n (P : Problem) (F : List Nat) (cs : List (List Rat)) (Q : Problem)
 /-- **slp_structure.**  With `embed s : Nat → Nat` (present variable ↦ itself, future variable `j` ↦ its copy
     for scenario `s`; `s = 0` is the original future, `s = i+1` sample `i`), a point `z` of the SLP satisfies
     bounds and rows iff every recombined point `z ∘ embed s`, `s = 0 … S`, satisfies those of `P`; and the SLP
-    value of `z` is the present value plus the mean over the scenarios of the future values.
+    value of `z` is: the value of the non-straddling present variables (own costs), plus the mean over the
+    scenarios of the value of the straddling present variables (present variables whose cost depends on future
+    prices; scenario costs, common decision `z`), plus the mean over the scenarios of the future values.
     (Row by row: `Row.eval (r.rename (embed s)) z = Row.eval r (z ∘ embed s)`, lemma `eval_rename`.) -/
 theorem slp_structure (P : Problem) (F : List Nat) (cs : List (List Rat)) (Q : Problem)
     (h : makeSlp P F cs = .ok Q) (z : Vec) :
     let mask := slpMask P F
+    let strad := slpStraddle P F
     let S := cs.length
     (Q.FeasibleRelaxed z ↔ ∀ s, s ≤ S → P.FeasibleRelaxed (fun j => z (slpEmbed mask P.n s j))) ∧
-    Q.value z = presentValue mask P.c z +
+    Q.value z = nsValue mask strad P.c z +
+      mean S (fun s => stradValue strad (scenCost P.c cs s) z) +
       mean S (fun s => futureValue mask (scenCost P.c cs s) (fun j => z (slpEmbed mask P.n s j))) := by
-  intro mask S
+  intro mask strad S
   obtain ⟨⟨hm, hl, hu, hs⟩, hQc, hQl, hQu, hQr, _⟩ := makeSlp_eq P F cs Q h
   have hm' : (slpMask P F).length = P.n := hm
   constructor
@@ -185,32 +219,41 @@ theorem slp_structure (P : Problem) (F : List Nat) (cs : List (List Rat)) (Q : P
     · intro hh
       exact ⟨fun s hs => (hh s hs).1, fun s hs => (hh s hs).2⟩
   · unfold Problem.value
-    rw [hQc, slp_cost_eq _ _ P.c cs (by rw [hm']; rfl) (fun c hc => by rw [hs c hc, hm'])]
-    unfold mean presentValue futureValue
-    rw [sum_range_succ_shift]
+    rw [hQc, slp_cost_eq_strad _ _ _ P.c cs (by rw [slpStraddle_length, hm']) (by rw [hm']; rfl)
+      (fun c hc => by rw [hs c hc, hm']) (slpStraddle_disjoint P F)]
+    unfold mean nsValue stradValue futureValue
+    rw [sum_range_succ_shift, sum_range_succ_shift]
     simp only [scenCost, slpEmbed_zero]
-    rw [sum_map_neg]
+    rw [sum_map_neg, sum_map_neg]
     have hk : ((cs.length : Nat) : Rat) + 1 ≠ 0 := (scen_pos cs.length).ne'
-    show _ = _ + (_ + -(List.map (fun i => selCost id mask (cs.getD i []) fun j => z (slpEmbed mask P.n (i + 1) j))
-      (List.range cs.length)).sum) / ((cs.length : Rat) + 1)
     have hn : P.c.length = P.n := rfl
     rw [hn]
     field_simp
     ring
 
-/-- if every scenario cost vector has the present part of the problem's own costs (the samples share the
-    present prices), the SLP value is the mean over the scenarios of the full scenario values -/
+/-- the samples share the costs of the present variables that are NOT straddling (a straddling present variable
+    — coarser asset frequency, block starting in the present and ending in the future — has a cost that depends
+    on future prices and may differ between the samples) -/
+def SharePresentNS (P : Problem) (F : List Nat) (cs : List (List Rat)) : Prop :=
+  ∀ i, i < cs.length → ∀ x,
+    nsValue (slpMask P F) (slpStraddle P F) (cs.getD i []) x = nsValue (slpMask P F) (slpStraddle P F) P.c x
+
+/-- **slp_value_mean.**  If the scenario cost vectors agree with the problem's own costs on the present variables
+    that are not straddling, the SLP value is the mean over the scenarios of the full scenario values of the
+    recombined points.  (A straddling variable is a present variable: `z_j` is the same in every recombined
+    point, so `mean_s (c_s[j]·z_j) = mean_s (c_s[j])·z_j`, which is what `make_slp` puts into the cost vector.) -/
 theorem slp_value_mean (P : Problem) (F : List Nat) (cs : List (List Rat)) (Q : Problem)
-    (h : makeSlp P F cs = .ok Q) (z : Vec)
-    (hshare : ∀ i, i < cs.length → ∀ x, presentValue (slpMask P F) (cs.getD i []) x = presentValue (slpMask P F) P.c x) :
+    (h : makeSlp P F cs = .ok Q) (z : Vec) (hshare : SharePresentNS P F cs) :
     Q.value z = mean cs.length (fun s => - costAt (scenCost P.c cs s) 0 (fun j => z (slpEmbed (slpMask P F) P.n s j))) := by
   obtain ⟨⟨hm, hl, hu, hs⟩, _⟩ := makeSlp_eq P F cs Q h
   have hm' : (slpMask P F).length = P.n := hm
+  have hst : (slpStraddle P F).length = (slpMask P F).length := by rw [slpStraddle_length, hm']
   rw [(slp_structure P F cs Q h z).2]
   have e : ∀ s, s ≤ cs.length →
       - costAt (scenCost P.c cs s) 0 (fun j => z (slpEmbed (slpMask P F) P.n s j)) =
-        presentValue (slpMask P F) P.c z +
-          futureValue (slpMask P F) (scenCost P.c cs s) (fun j => z (slpEmbed (slpMask P F) P.n s j)) := by
+        nsValue (slpMask P F) (slpStraddle P F) P.c z +
+          (stradValue (slpStraddle P F) (scenCost P.c cs s) z +
+            futureValue (slpMask P F) (scenCost P.c cs s) (fun j => z (slpEmbed (slpMask P F) P.n s j))) := by
     intro s hs'
     have hlen : (scenCost P.c cs s).length = (slpMask P F).length := by
       cases s with
@@ -220,22 +263,35 @@ theorem slp_value_mean (P : Problem) (F : List Nat) (cs : List (List Rat)) (Q : 
         show (cs.getD i []).length = _
         rw [hm', List.getD_eq_getElem?_getD, List.getElem?_eq_getElem hi]
         exact hs _ (List.getElem_mem hi)
-    rw [value_split _ _ hlen]
-    congr 1
-    have hp : presentValue (slpMask P F) (scenCost P.c cs s) (fun j => z (slpEmbed (slpMask P F) P.n s j)) =
-        presentValue (slpMask P F) P.c (fun j => z (slpEmbed (slpMask P F) P.n s j)) := by
+    rw [value_split _ _ hlen, presentValue_split _ (slpStraddle P F) _ hst hlen (slpStraddle_disjoint P F)]
+    have hns : nsValue (slpMask P F) (slpStraddle P F) (scenCost P.c cs s) (fun j => z (slpEmbed (slpMask P F) P.n s j)) =
+        nsValue (slpMask P F) (slpStraddle P F) P.c z := by
+      have h1 : nsValue (slpMask P F) (slpStraddle P F) (scenCost P.c cs s) (fun j => z (slpEmbed (slpMask P F) P.n s j)) =
+          nsValue (slpMask P F) (slpStraddle P F) P.c (fun j => z (slpEmbed (slpMask P F) P.n s j)) := by
+        cases s with
+        | zero => rfl
+        | succ i => exact hshare i (by omega) _
+      rw [h1]
+      unfold nsValue
+      congr 1
+      apply selCost_id_congr
+      intro j _ hj
+      have hmj := (nsMask_getD _ _ j hj).1
       cases s with
       | zero => rfl
-      | succ i => exact hshare i (by omega) _
-    rw [hp]
-    unfold presentValue
-    congr 1
-    apply selCost_not_congr
-    intro j _ hmj
-    cases s with
-    | zero => rfl
-    | succ i => rw [slpEmbed_succ_unsel _ _ i j hmj]
-  rw [mean_congr _ _ _ e, mean_add_const]
+      | succ i => rw [slpEmbed_succ_unsel _ _ i j hmj]
+    have hsv : stradValue (slpStraddle P F) (scenCost P.c cs s) (fun j => z (slpEmbed (slpMask P F) P.n s j)) =
+        stradValue (slpStraddle P F) (scenCost P.c cs s) z := by
+      unfold stradValue
+      congr 1
+      apply selCost_id_congr
+      intro j _ hj
+      have hmj := slpStraddle_disjoint P F j hj
+      cases s with
+      | zero => rfl
+      | succ i => rw [slpEmbed_succ_unsel _ _ i j hmj]
+    rw [hns, hsv]; ring
+  rw [mean_congr _ _ _ e, mean_add_const, mean_add]; ring
 
 /-- with future labels in range, "label is one of `fut_vars`" and "mask entry of the label" are the same -/
 theorem slpIsFut_eq (P : Problem) (F : List Nat) (hlab : FutLabelsInRange P F) (v : Nat) :
@@ -256,6 +312,8 @@ theorem slp_n' (P : Problem) (F : List Nat) (cs : List (List Rat)) (Q : Problem)
   have hm' : (slpMask P F).length = P.n := hm
   unfold Problem.n
   rw [hQc, List.length_append, length_scaleSel, length_sampleCosts _ _ cs (fun c hc => by rw [hs c hc, hm'])]
+  unfold presentCosts
+  rw [length_meanSel]
 
 /-- **slp_mapping_faithful.**  The mapping of the SLP keeps its index on VARIABLES: the original rows are
     unchanged; for every sample `i` the rows of the future variables (all rows of such a variable) are appended
@@ -427,10 +485,43 @@ def scenValue (P : Problem) (cs : List (List Rat)) (s : Nat) (x : Vec) : Rat := 
 def SharePresent (P : Problem) (F : List Nat) (cs : List (List Rat)) : Prop :=
   ∀ i, i < cs.length → ∀ x, presentValue (slpMask P F) (cs.getD i []) x = presentValue (slpMask P F) P.c x
 
+/-- sharing the whole present part implies sharing its non-straddling part -/
+theorem sharePresentNS_of_sharePresent (P : Problem) (F : List Nat) (cs : List (List Rat))
+    (hfit : SamplesFit P cs) (h : SharePresent P F cs) : SharePresentNS P F cs := by
+  intro i hi x
+  have hm : (slpMask P F).length = P.n := slpMask_length P F
+  have hst : (slpStraddle P F).length = (slpMask P F).length := by rw [slpStraddle_length, hm]
+  -- evaluate at the point with the straddling coordinates set to zero
+  let x' : Vec := fun j => if (slpStraddle P F).getD j false then 0 else x j
+  have key : ∀ c : List Rat, c.length = (slpMask P F).length →
+      nsValue (slpMask P F) (slpStraddle P F) c x = presentValue (slpMask P F) c x' := by
+    intro c hc
+    rw [presentValue_split _ (slpStraddle P F) c hst hc (slpStraddle_disjoint P F)]
+    have h1 : nsValue (slpMask P F) (slpStraddle P F) c x' = nsValue (slpMask P F) (slpStraddle P F) c x := by
+      unfold nsValue
+      congr 1
+      apply selCost_id_congr
+      intro j _ hj
+      have := (nsMask_getD _ _ j hj).2
+      show (if (slpStraddle P F).getD j false = true then 0 else x j) = x j
+      rw [if_neg (by rw [this]; exact Bool.false_ne_true)]
+    have h2 : stradValue (slpStraddle P F) c x' = 0 := by
+      unfold stradValue
+      rw [selCost_id_congr (slpStraddle P F) c x' (fun _ => 0) (fun j _ hj => by
+        show (if (slpStraddle P F).getD j false = true then 0 else x j) = 0
+        rw [if_pos hj]), selCost_zero]
+      simp
+    rw [h1, h2]; ring
+  have hci : (cs.getD i []).length = (slpMask P F).length := by
+    rw [hm, List.getD_eq_getElem?_getD, List.getElem?_eq_getElem hi]
+    exact hfit _ (List.getElem_mem hi)
+  rw [key _ hci, key P.c (by rw [hm]; rfl)]
+  exact h i hi x'
+
 /-- wait-and-see for the SLP problem: its value at any feasible point is at most the mean of upper bounds
     of the per-scenario problems (same rows and bounds as `P`, costs of scenario `s`) -/
 theorem slp_le_wait_and_see_problem (P : Problem) (F : List Nat) (cs : List (List Rat)) (Q : Problem)
-    (h : makeSlp P F cs = .ok Q) (hshare : SharePresent P F cs) (ub : Nat → Rat)
+    (h : makeSlp P F cs = .ok Q) (hshare : SharePresentNS P F cs) (ub : Nat → Rat)
     (hub : ∀ s, s ≤ cs.length → ∀ x, P.FeasibleRelaxed x → scenValue P cs s x ≤ ub s)
     (z : Vec) (hz : Q.FeasibleRelaxed z) : Q.value z ≤ mean cs.length ub := by
   rw [slp_value_mean P F cs Q h z hshare]
@@ -455,7 +546,7 @@ theorem slp_eq_det_of_equal_problem (P : Problem) (F : List Nat) (cs : List (Lis
       show cs.getD i [] = _
       rw [List.getD_eq_getElem?_getD, List.getElem?_eq_getElem hi]
       exact heq _ (List.getElem_mem hi)
-  have hshare : SharePresent P F cs := by
+  have hshare : SharePresentNS P F cs := by
     intro i hi x
     have := hsc (i + 1) (by omega)
     have e : cs.getD i [] = P.c := this
@@ -592,6 +683,22 @@ example : slpColumn exO [2, 3] 1 = [none, none, some (-1), some (-1), none, none
 example : (match makeSlp exO [2, 3] [[4, 2, 1, 12, 3]] with
     | .ok Q => ["ob", "mkt"].map fun a => slpDispatchOut Q.mapping (slpColumn exO [2, 3] 1) a "n" 2 zO
     | .error _ => []) = [1, -1] := by decide +kernel
+/-- a straddling present variable (commit 20639b0): variable 1 has its first row in the present (step 0) and a
+    second row at the future step 1 (coarser asset frequency), variable 2 is future; the two samples differ on
+    variable 1 (costs 5 and 8, own cost 2): its SLP cost is the MEAN (2+5+8)/3 = 5, not the own cost 2 -/
+private def exS : Problem :=
+  { c := [1, 2, 3], l := [0, 0, 0], u := [4, 4, 4], rows := [],
+    mapping := [mr 0 0, mr 1 0, mr 1 1, mr 2 1], nodal := [] }
+example : slpMask exS [1] = [false, false, true] ∧ slpStraddle exS [1] = [false, true, false] := by decide
+example : view (makeSlp exS [1] [[1, 5, 4], [1, 8, 6]]) =
+    .inr [[1, 5, 1, 4/3, 2], [0, 0, 0, 0, 0], [4, 4, 4, 4, 4]] := by decide +kernel
+/-- the samples share the cost of the only non-straddling present variable 0, so `slp_value_mean` applies: at
+    `z = (1, 1, 1 | 2 | 3)` the SLP value −47/3 is the mean of the scenario values −6, −14, −27 -/
+private def zS : Vec := fun j => [1, 1, 1, 2, 3].getD j 0
+example : (match makeSlp exS [1] [[1, 5, 4], [1, 8, 6]] with | .ok Q => Q.value zS | .error _ => 0) = -47/3 := by
+  decide +kernel
+example : (List.range 3).map (fun s => - costAt (scenCost exS.c [[1, 5, 4], [1, 8, 6]] s) 0
+    (fun j => zS (slpEmbed [false, false, true] 3 s j))) = [-6, -14, -27] := by decide +kernel
 example : robustObjective [[1, 2, 3], [3, 0, 0]] (fun j => [1, 1, 0].getD j 0) = some (-3) := by decide +kernel
 end Example
 
